@@ -152,6 +152,8 @@ Definition mk_SD (a r : Z) := ix_mfi DISP_SD 8 [a; K_RECORD; K_GROUP; r; K_SYSVA
 Definition mk_ED (a r : Z) := ix_mfi DISP_ED 8 [a; K_RECORD; K_GROUP; r] [].
 Definition mk_SF (a s e : Z) := ix_mfi DISP_SF 16 [a; s; K_SYSVAR] [e].
 Definition mk_EF (a s : Z) := ix_mfi DISP_EF 8 [a; s] [].
+(* end_flashloan of account a that also lists account x among its trailing (remaining) accounts *)
+Definition mk_EFX (a s x : Z) := ix_mfi DISP_EF 8 [a; s; x] [].
 Definition mk_WD (a s b m : Z) := ix_mfi DISP_WD 17 [K_GROUP; a; s; b; K_MISC; K_MISC; K_MISC; K_MISC] [m; 0].
 Definition mk_RP (a s b m : Z) := ix_mfi DISP_RP 17 [K_GROUP; a; s; b; K_MISC; K_MISC; K_MISC] [m; 0].
 Definition mk_BR (a s b m : Z) := ix_mfi IX_BR 16 [K_GROUP; a; s; b; K_MISC; K_MISC; K_MISC; K_MISC] [m].
